@@ -28,6 +28,8 @@ package contracts
 //@   ensures len(s) > 0 && s[0] >= 128 ==> result0 >= 128
 //@   ensures 0 <= result0 && result0 <= 1114111
 //@   ensures result1 > 1 ==> forall k in 0..result1 :: s[k] >= 128
+//@   ensures result0 >= 65536 ==> result1 == 4
+//@   ensures result1 == 1 ==> result0 < 128 || result0 == 65533
 
 //@ func unicode.IsLetter
 //@   trusted unicode.IsLetter agrees with [A-Za-z] on ASCII
